@@ -84,6 +84,7 @@ harnesses! {
         #[cfg_attr(kani, kani::stub(std::process::id, crate::c09_pattern::stub_process_id))]
         #[cfg_attr(kani, kani::stub(std::backtrace::Backtrace::capture, crate::util::stub_backtrace_capture))]
         #[cfg_attr(kani, kani::stub(<anyhow::Error as std::ops::Drop>::drop, crate::util::stub_anyhow_drop))]
+        #[cfg_attr(kani, kani::stub(<anyhow::Error as std::convert::From<std::io::Error>>::from, crate::util::stub_anyhow_from_cut))]
     }
     // widths: Parser::integer on long digit strings (2^64 = 18446744073709551616)
     #[kani::unwind(26)]
